@@ -691,7 +691,6 @@ theorem ensureLoop_live (md : List String) (n : String) (hnmd : n ∉ md) (toAdd
               | some v => rfl
               | none => simp [alookup]
           obtain ⟨hs1, hcached1, hview⟩ := hkey
-          have hlt_or : i < s.ms.length ∨ ¬ i < s.ms.length := Classical.em _
           -- the state after appending
           have hs2 : LGood P (fun x => x ∉ md ∧ x ≠ n) (fun x => x ∉ md)
               { (touch (some I) [n] s) with ms := setAt (touch (some I) [n] s).ms i ((touch (some I) [n] s).ms.getD i [] ++ [(n, g)]) } := by
